@@ -137,7 +137,7 @@ ALLOCATORS = {'malloc', 'calloc', 'realloc', 'strdup', 'xrl_strdup', 'xrl_strndu
 
 class Interp:
     def __init__(self, prog, func, max_paths=20000, unroll=1200, const_tables=True, call_model=None, on_subscript=None,
-                 on_deref=None, pure_pred=None, on_math=None, on_div=None):
+                 on_deref=None, pure_pred=None, on_math=None, on_div=None, call_ranges=None):
         self.prog = prog
         self.func = func
         self.max_paths = max_paths
@@ -154,7 +154,11 @@ class Interp:
         self.fabs_args = {}
         # recorded assumptions about data handed out by the compound constructors (A1, A2 in DESIGN.md appendix B)
         self.assume_patterns = [(re.compile(r'\.massFractions\)\[[^\]]*\]$'), Interval(Fraction(0), None, True, False)),
-                                (re.compile(r'\.nElements$'), Interval(Fraction(1), None))]
+                                (re.compile(r'\.nElements$'), Interval(Fraction(1), None)),
+                                # A5: atom counts delivered by a successful CompoundParserSimple(.., &ca, ..) are positive
+                                # (every contribution is a non-zero subscript of digits, or a product of such: rules/c07.py)
+                                (re.compile(r'^\w+@\d+\.singleElements\[[^\]]*\]\.nAtoms$'), Interval(Fraction(0), None, True, False))]
+        self.call_ranges = dict(call_ranges or {})    # function name -> Interval of everything it can return (supplied by the rule, from data)
         self.types = {}          # canonical symbol -> C type (for integer reasoning)
         self.var_types = {}
         self.addr_taken = set()
@@ -167,6 +171,16 @@ class Interp:
                     self.addr_taken.add(t['id'])
         self._tables = {}
         self._discovering = 0
+        self._mono_found = {}
+        self._compound_atoms_vars = set()
+        for p in func.get('params', []):
+            if 'compoundAtoms' in (p.get('T') or ''):
+                self._compound_atoms_vars.add(p['name'])
+        for n in walk(func.get('body') or {}):
+            if n.get('k') == 'DeclStmt':
+                for d in n.get('decls', []):
+                    if 'compoundAtoms' in (d.get('T') or ''):
+                        self._compound_atoms_vars.add(d['name'])
 
     # ----------------------------------------------------------------------------------- entry
     def run(self):
@@ -422,8 +436,16 @@ class Interp:
             return Interval(Fraction(1), None)
         if self._single_call(key, 'strlen'):
             return Interval(Fraction(0), None)
+        if self.call_ranges:
+            m = re.match(r'^(\w+)(#\d+)?\(', key)
+            if m and m.group(1) in self.call_ranges and self._single_call(key, m.group(1) + (m.group(2) or '')):
+                return self.call_ranges[m.group(1)]
         for rx, iv in self.assume_patterns:
             if rx.search(key):
+                # A1/A2 speak about struct compoundData handed out by the compound constructors, not about the parser's
+                # internal struct compoundAtoms (which does start empty)
+                if self.types.get(key + '\0rec') == 'compoundAtoms' or key.split('.')[0] in self._compound_atoms_vars:
+                    continue
                 return iv
         return None
 
@@ -642,7 +664,7 @@ class Interp:
                     and not node.get('dims'):
                 cv = st.env[node['id']].canon()
                 return cv if cv == node['name'] else '(' + cv + ')'
-            if node.get('dims') and node.get('cls') == 'local':
+            if node.get('cls') == 'local' and (node.get('dims') or ('\0ver:' + node['name']) in st.mem):
                 ver = st.mem.get('\0ver:' + node['name'])
                 if ver is not None:
                     return '%s@%s' % (node['name'], ver.canon())     # contents as left by the call that last wrote the array
@@ -992,6 +1014,10 @@ class Interp:
                 if t.get('k') == 'DeclRefExpr' and t.get('cls') in ('local', 'param'):
                     st.env[t['id']] = Rat.sym('%s@%d' % (t['name'], cid))
                     self.types['%s@%d' % (t['name'], cid)] = t.get('dT')
+                    if t.get('cls') == 'local' and ('struct ' in (t.get('dT') or '') or (t.get('dT') or '')[:1].isupper()) and \
+                            not (a.get('T') or '').startswith('const ') and name not in PURE_LIBM:
+                        # a local record handed to a callee by address: its fields hold unknown values afterwards
+                        st.mem['\0ver:' + t['name']] = Rat.const(cid)
                 else:
                     key = self.lvalue_key(t, st)
                     st.mem[key] = Rat.sym('%s@%d' % (key, cid))
@@ -1356,6 +1382,20 @@ class Interp:
             cells = self._stored_cells(node, h, lid)
             for key in cells:
                 h.mem[key] = Rat.sym('%s@L%d' % (key, lid))
+            # an accumulator never passes back over the value it had on entry of the loop
+            accum = {}
+            for vid, direction in dict(self._mono_found).items():
+                pre = st.env.get(vid)
+                if pre is None or vid not in w:
+                    continue
+                piv = self.interval_of(pre, st)
+                bound = Interval(piv.lo, None, piv.los, False) if direction == 'up' else Interval(None, piv.hi, False, piv.his)
+                if bound.lo is None and bound.hi is None:
+                    continue
+                accum[vid] = bound
+                key_ = h.env[vid].canon()
+                old_ = h.facts.get(key_)
+                h.facts[key_] = self._meet(old_, bound) if old_ is not None else bound.copy()
             h.events.append(Event('loop-begin', node=node, id=lid, loop=h.loopdepth))
             if cond is not None:
                 t, _ = self.branch(cond, [h])
@@ -1431,6 +1471,9 @@ class Interp:
                     s.env[vid] = Rat.sym(sname)
                 for key in cells:
                     s.mem[key] = Rat.sym('%s@L%d' % (key, self.counter))
+                for vid, bound in accum.items():
+                    key_ = s.env[vid].canon()
+                    s.facts[key_] = bound.copy()
                 s.events.append(Event('loop-end', node=node, id=lid, loop=s.loopdepth))
                 if cond is not None:
                     _, f = self.branch(cond, [s])
@@ -1448,8 +1491,10 @@ class Interp:
         saved = (self.counter, self.on_subscript, self.on_deref, self.on_math, self.on_div, dict(self.fabs_args))
         self.on_subscript = self.on_deref = self.on_math = self.on_div = None    # no obligations from the discovery run
         cells = set()
+        self._mono_found = {}
         try:
             d = h.fork()
+            start_env = dict(d.env)
             n0 = len(d.events)
             cond, body = node.get('cond'), node.get('body')
             t = self.branch(cond, [d])[0] if cond is not None else [d]
@@ -1464,8 +1509,33 @@ class Interp:
                 for e_ in s_.events[n0:]:
                     if e_.kind == 'store' and e_.lv and '@L' not in e_.lv and '#' not in e_.lv:
                         cells.add(e_.lv)
+            # accumulators: variables whose value only moves one way in every completed iteration
+            done = [s_ for s_ in after if s_.status in ('run', 'cont')]
+            for vid, v0 in start_env.items():
+                if not done or v0 is None:
+                    continue
+                dirs = set()
+                for s_ in done:
+                    v1 = s_.env.get(vid)
+                    if v1 is None:
+                        dirs.add('?')
+                        continue
+                    if v1.canon() == v0.canon():
+                        dirs.add('same')
+                        continue
+                    iv = self.interval_of(v1 - v0, s_)
+                    if iv.lo is not None and iv.lo >= 0:
+                        dirs.add('up')
+                    elif iv.hi is not None and iv.hi <= 0:
+                        dirs.add('down')
+                    else:
+                        dirs.add('?')
+                dirs.discard('same')
+                if dirs == {'up'} or dirs == {'down'}:
+                    self._mono_found[vid] = dirs.pop()
         except (NotInClass, Inconclusive):
             cells = set()
+            self._mono_found = {}
         finally:
             self._discovering -= 1
             self.counter, self.on_subscript, self.on_deref, self.on_math, self.on_div, self.fabs_args = saved
@@ -1601,4 +1671,13 @@ class Interp:
 
 def run_function(prog, func, **kw):
     it = Interp(prog, func, **kw)
+    return it, it.run()
+
+
+def run_fragment(prog, func, stmt, **kw):
+    """Abstract paths of one statement of `func` taken on its own: parameters and locals are unconstrained symbols on
+    entry (a sound over-approximation of every state in which the statement can be reached)."""
+    f2 = dict(func)
+    f2['body'] = stmt if stmt.get('k') == 'CompoundStmt' else {'k': 'CompoundStmt', 'ln': stmt.get('ln'), 'col': stmt.get('col'), 'c': [stmt]}
+    it = Interp(prog, f2, **kw)
     return it, it.run()
